@@ -34,6 +34,8 @@ type tableRow struct {
 	result  tval
 	reached bool
 	errExit bool // the region was left through a failing return before the target
+	stored    bool // a tracked field was written on the way
+	storedVal tval
 }
 
 type tableInterp struct {
@@ -46,6 +48,10 @@ type tableInterp struct {
 	errExit bool
 	strs    map[string]int64
 	vals    map[string]ssa.Value
+	// track: field key whose stores are recorded while interpreting (last value wins)
+	track      string
+	stored     bool
+	storedVal  tval
 }
 
 func (it *tableInterp) atomID(v ssa.Value) string {
@@ -180,6 +186,14 @@ func (it *tableInterp) run(start *ssa.BasicBlock, target ssa.Instruction, want s
 				}
 				return it.val(want), true
 			}
+			if it.track != "" {
+				if st, ok := in.(*ssa.Store); ok {
+					if fa, ok := st.Addr.(*ssa.FieldAddr); ok && fieldKey(fa) == it.track {
+						it.stored = true
+						it.storedVal = it.val(st.Val)
+					}
+				}
+			}
 		}
 		if len(b.Instrs) == 0 {
 			return tval{}, false
@@ -228,6 +242,11 @@ func (it *tableInterp) val2atom(v ssa.Value) tval {
 var lastAtomValues = map[string]ssa.Value{}
 
 func truthTable(L *Loaded, start *ssa.BasicBlock, target ssa.Instruction, want ssa.Value) ([]tableRow, []string, string) {
+	return truthTableTracking(L, start, target, want, "")
+}
+
+// truthTableTracking additionally records, per assignment, the last value stored into the field `track`.
+func truthTableTracking(L *Loaded, start *ssa.BasicBlock, target ssa.Instruction, want ssa.Value, track string) ([]tableRow, []string, string) {
 	lastAtomValues = map[string]ssa.Value{}
 	sym := newSym(L, map[string]bool{})
 	sym.maxD = 0 // atoms are named by their local expression, callees are opaque
@@ -246,7 +265,7 @@ func truthTable(L *Loaded, start *ssa.BasicBlock, target ssa.Instruction, want s
 		var assign func(i int, env map[string]tval)
 		assign = func(i int, env map[string]tval) {
 			if i == len(ids) {
-				it := &tableInterp{L: L, sym: sym, env: env, atoms: map[string]bool{}, vals: lastAtomValues}
+				it := &tableInterp{L: L, sym: sym, env: env, atoms: map[string]bool{}, vals: lastAtomValues, track: track}
 				res, reached := it.run(start, target, want)
 				for id, isB := range it.atoms {
 					if _, ok := known[id]; !ok {
@@ -258,7 +277,7 @@ func truthTable(L *Loaded, start *ssa.BasicBlock, target ssa.Instruction, want s
 				for k, v := range env {
 					cp[k] = v
 				}
-				rows = append(rows, tableRow{atoms: cp, result: res, reached: reached, errExit: it.errExit})
+				rows = append(rows, tableRow{atoms: cp, result: res, reached: reached, errExit: it.errExit, stored: it.stored, storedVal: it.storedVal})
 				return
 			}
 			id := ids[i]
